@@ -607,3 +607,46 @@ func init() {
 		return makeReflectType(rtype{args[0].(rtype).t.Underlying().(*types.Map).Key()})
 	}
 }
+
+func init() {
+	rt := func(v value) types.Type { return v.(iface).v.(rtype).t }
+	externals["reflect.MakeSlice"] = func(fr *frame, args []value) value {
+		t := rt(args[0])
+		st, ok := t.Underlying().(*types.Slice)
+		if !ok {
+			panic(targetPanic{iface{types.Typ[types.String], "reflect.MakeSlice of non-slice type"}})
+		}
+		n, c := args[1].(int), args[2].(int)
+		if n < 0 || c < n {
+			panic(targetPanic{iface{types.Typ[types.String], "reflect.MakeSlice: bad len/cap"}})
+		}
+		s := make([]value, c)
+		for k := range s {
+			s[k] = zero(st.Elem())
+		}
+		return makeReflectValue(t, s[:n])
+	}
+	ptrTo := func(fr *frame, args []value) value {
+		return makeReflectType(rtype{types.NewPointer(rt(args[0]))})
+	}
+	externals["reflect.PtrTo"] = ptrTo
+	externals["reflect.PointerTo"] = ptrTo
+	externals["reflect.ArrayOf"] = func(fr *frame, args []value) value {
+		return makeReflectType(rtype{types.NewArray(rt(args[1]), int64(args[0].(int)))})
+	}
+	externals["reflect.MapOf"] = func(fr *frame, args []value) value {
+		return makeReflectType(rtype{types.NewMap(rt(args[0]), rt(args[1]))})
+	}
+	externals["reflect.Indirect"] = func(fr *frame, args []value) value {
+		v := args[0]
+		if p, ok := rV2V(v).(*value); ok {
+			if p == nil {
+				return makeReflectValue(nil, nil)
+			}
+			if pt, ok := rV2T(v).t.Underlying().(*types.Pointer); ok {
+				return makeReflectValue(pt.Elem(), *p)
+			}
+		}
+		return v
+	}
+}
